@@ -4,5 +4,6 @@ CONSTANTS Keys = {1, 2, 3}
           BatchVals = {0, 1, 2}
           ThrVals = {0, 1, 2}
           BadSets = {{}, {3}, {1, 2, 3}}
+          PlanModes = {"same", "set"}
 INVARIANTS Emit
 CHECK_DEADLOCK FALSE
